@@ -352,7 +352,11 @@ def _known(fr: Frame, name: str, e, args, kwargs, env, guard, stmt):
                 for p, q in zip(x.items, y.items):
                     acc = acc.add(R(p).mul(R(q)))
                 return acc
-            return anf.opaque("dot", R(x), R(y))
+            rx, ry = R(x), R(y)
+            if rx.is_array() and ry.is_array():
+                # inner product of two element-wise (1-D) expressions: the sum of the element-wise products
+                return anf.f_sum(rx.mul(ry), ev.length_of(x))
+            return anf.opaque("dot", rx, ry)
         return lift(dot, a(0), a(1))
     if name == "np.cross":
         def cross(x, y):
